@@ -60,12 +60,15 @@ func (o c19PSOp) golit() string {
 	return fmt.Sprintf("s[%d] = s[%d].SymmetricDifference(s[%d])", o.a, o.b, o.c)
 }
 
-// known number/string keys, marked or not (the paths on which the rules are lawful)
+// keys without an unknown anywhere, marked or not: `Equivalent` (Equals known and true,
+// marks aside) is an equivalence relation on those, so the reference set applies.  The
+// theorems (pathset_refines) cover the known number / string keys among them; null keys
+// and keys of other types are searched only.  (d19: was number / string keys only.)
 func c19GoodPath(p cty.Path) bool {
 	for _, s := range p {
 		if is, ok := s.(cty.IndexStep); ok {
-			k, _ := is.Key.Unmark() // marks on keys play no part (9ae0f30)
-			if !k.IsKnown() || k.IsNull() || !(k.Type() == cty.Number || k.Type() == cty.String) {
+			k, _ := is.Key.UnmarkDeep() // marks on keys play no part (9ae0f30)
+			if !k.IsWhollyKnown() {
 				return false
 			}
 		}
@@ -278,6 +281,10 @@ func c19RunPS(ctx *Ctx, nregs int, ops []c19PSOp, judge bool, tag string) {
 			}
 		}
 		fail("pathset-no-panic", sig, "a PathSet call panicked: "+why, "panic")
+	} else {
+		// a history over keys that hold an unknown: the answers are not judged (Equivalent is
+		// not reflexive there), but a set of paths does not panic
+		fail("pathset-no-panic", "unknown-key", "a PathSet call panicked: "+why, "panic")
 	}
 	args := append([]string{fmt.Sprint(nregs)}, wires...)
 	ctx.Add("pathset.run", impl, args...)
